@@ -1,5 +1,7 @@
 // C13 implementation side: the REAL encoders / probe step, same case format as ocaml/driver.ml
 #include "private_access.h"
+#include <set>
+#include <cstring>
 #include "momo/HashSet.h"
 #include "momo/details/HashBucketOpen2N2.h"
 #include "momo/details/HashBucketOpenN1.h"
@@ -8,13 +10,14 @@ using namespace momo;
 typedef HashSetItemTraits<uint64_t, MemManagerDefault> IT;
 template<size_t M> using O2 = internal::BucketOpen2N2<IT, M, true>;
 template<size_t M> using N1 = internal::BucketOpenN1<IT, M, true>;
+template<size_t M> using N1F = internal::BucketOpenN1<IT, M, false>;
 typedef internal::BucketOpen8<IT> O8;
 typedef unsigned long long ull;
 
 template<class B> struct Raw {   // storage that is never destroyed (the destructor asserts count == 0)
 	alignas(B) unsigned char buf[sizeof(B)];
 	B* b;
-	Raw() { b = new (buf) B(); }
+	Raw() { memset(buf, 0, sizeof(buf)); b = new (buf) B(); }
 };
 
 template<size_t M> static void runN1(uint8_t x, size_t L, const std::vector<size_t>& ps)
@@ -45,20 +48,29 @@ struct SlowTraits2 : public momo::HashTraitsStd<uint64_t, TblHash, std::equal_to
 // full-load variants: capacity = every slot, so insertions must probe up to the very last bucket
 struct FastTraits8Full : public FastTraits8 { size_t CalcCapacity(size_t bucketCount, size_t bucketMaxItemCount) const noexcept { return bucketCount * bucketMaxItemCount; } };
 struct SlowTraits2Full : public SlowTraits2 { size_t CalcCapacity(size_t bucketCount, size_t bucketMaxItemCount) const noexcept { return bucketCount * bucketMaxItemCount; } };
-template<class HT, size_t expectMax> static void runTbl(size_t n, const std::vector<std::pair<uint64_t, uint64_t>>& kh)
+struct TblOp { bool add; uint64_t key, hash; };
+template<class HT, size_t expectMax> static void runTbl(size_t n, const std::vector<TblOp>& ops)
 {
 	typedef momo::HashSet<uint64_t, HT> HS;
-	std::map<uint64_t, uint64_t> tab; for (auto& p : kh) tab[p.first] = p.second;
+	std::map<uint64_t, uint64_t> tab; for (auto& o : ops) if (o.add && !tab.count(o.key)) tab[o.key] = o.hash;
 	gTab = &tab;
 	static_assert(HS::Bucket::maxCount == expectMax, "unexpected bucket type selected");
 	HS hs{ HT() };
 	// choose a reservation that yields exactly 2^n buckets (no growth during the inserts)
-	size_t want = size_t(1) << n; bool ok = false;
+	size_t want = size_t(1) << n; bool ok = false; size_t adds = 0; for (auto& o : ops) adds += o.add ? 1 : 0;
 	for (size_t r = 1; r <= want * 8 && !ok; ++r) { HS probe{ HT() }; probe.Reserve(r); if (probe.GetBucketCount() == want) { hs.Reserve(r); ok = true; } if (probe.GetBucketCount() > want) break; }
-	if (!ok || hs.GetBucketCount() != want || kh.size() > hs.GetCapacity()) { puts("skip"); return; }
-	bool full = false;
-	try { for (auto& p : kh) hs.Insert(p.first); }
-	catch (const std::runtime_error&) { full = true; }
+	if (!ok || hs.GetBucketCount() != want) { puts("skip"); return; }
+	bool full = false, badfull = false; std::set<uint64_t> present, removed;
+	for (auto& o : ops)
+	{
+		if (o.add)
+		{
+			if (hs.GetCount() >= hs.GetCapacity()) { puts("skip"); return; }   // would grow: outside the fixed-size model
+			try { hs.Insert(o.key); present.insert(o.key); removed.erase(o.key); }
+			catch (const std::runtime_error&) { full = true; if (hs.GetCount() < want * expectMax) badfull = true; }
+		}
+		else if (hs.Remove(o.key)) { present.erase(o.key); removed.insert(o.key); }
+	}
 	if (hs.GetBucketCount() != want || hs.mBuckets->GetNextBuckets() != nullptr) { puts("skip"); return; }
 	std::string out; size_t i = 0;
 	auto& params = hs.mBuckets->GetBucketParams();
@@ -71,12 +83,50 @@ template<class HT, size_t expectMax> static void runTbl(size_t n, const std::vec
 		{
 			out += std::to_string(i) + ":[";
 			for (size_t j = 0; j < items.size(); ++j) out += (j ? "," : "") + std::to_string(items[j]);
-			out += "]:" + std::to_string(bound) + ";";
+			out += "]:" + std::to_string(bound) + ":" + std::to_string(b.pvGetCount()) + ";";
 		}
 		++i;
 	}
-	bool all = true; for (auto& p : kh) all = all && (full || hs.ContainsKey(p.first));
-	printf("%s found=%s full=%s\n", out.c_str(), all ? "true" : "false", full ? "true" : "false");
+	bool all = true; for (uint64_t k : present) all = all && hs.ContainsKey(k);
+	for (uint64_t k : removed) all = all && !hs.ContainsKey(k);
+	printf("%s found=%s full=%s badfull=%s\n", out.c_str(), all ? "true" : "false", full ? "true" : "false", badfull ? "true" : "false");
+}
+
+// bucket level: AddCrt / Remove / UpdateMaxProbe / Clear on one real bucket; dump every bookkeeping byte
+struct BOp { char k; ull a, b, c; };
+template<class B> static typename B::Iterator nthIter(B& b, typename B::Params& pa, size_t j)
+{
+	auto bounds = b.GetBounds(pa); auto it = bounds.GetBegin(); for (size_t t = 0; t < j; ++t) ++it; return it;
+}
+static void runBopsO2(const std::vector<BOp>& ops)
+{
+	typedef O2<3> B; Raw<B> r; MemManagerDefault mm; B::Params pa(mm);
+	for (auto& o : ops)
+	{
+		size_t cnt = r.b->pvGetCount();
+		if (o.k == 'A') { if (cnt >= 3) { puts("stuck"); return; } ull v = o.a; r.b->AddCrt(pa, [v] (uint64_t* p) { *p = v; }, size_t(o.a), size_t(o.b), size_t(o.c)); }
+		else if (o.k == 'R') { if (o.a >= cnt) { puts("stuck"); return; } r.b->Remove(pa, nthIter(*r.b, pa, size_t(o.a)), [] (uint64_t& src, uint64_t& dst) { dst = src; }); }
+		else if (o.k == 'U') r.b->UpdateMaxProbe(size_t(o.a));
+		else r.b->Clear(pa);
+	}
+	printf("%u %u %u %u %u %u %u %u %llu %llu\n", unsigned(r.b->mState[0]), unsigned(r.b->mState[1]),
+		unsigned(r.b->mHashData.shortHashes[0]), unsigned(r.b->mHashData.shortHashes[1]), unsigned(r.b->mHashData.shortHashes[2]),
+		unsigned(r.b->mHashData.hashProbes[0]), unsigned(r.b->mHashData.hashProbes[1]), unsigned(r.b->mHashData.hashProbes[2]),
+		ull(r.b->pvGetCount()), ull(r.b->GetMaxProbe(0)));
+}
+template<class B, size_t M> static void runBopsN1(size_t L, const std::vector<BOp>& ops)
+{
+	Raw<B> r; MemManagerDefault mm; typename B::Params pa(mm);
+	for (auto& o : ops)
+	{
+		size_t cnt = r.b->pvGetCount();
+		if (o.k == 'A') { if (cnt >= M) { puts("stuck"); return; } ull v = o.a; r.b->AddCrt(pa, [v] (uint64_t* p) { *p = v; }, size_t(o.a), size_t(o.b), size_t(o.c)); }
+		else if (o.k == 'R') { if (o.a >= cnt) { puts("stuck"); return; } r.b->Remove(pa, nthIter(*r.b, pa, size_t(o.a)), [] (uint64_t& src, uint64_t& dst) { dst = src; }); }
+		else if (o.k == 'U') r.b->UpdateMaxProbe(size_t(o.a));
+		else r.b->Clear(pa);
+	}
+	for (size_t i = 0; i <= M; ++i) printf("%u ", unsigned(r.b->mData[i]));
+	printf("%llu %llu\n", ull(r.b->pvGetCount()), ull(r.b->GetMaxProbe(L)));
 }
 
 int main()
@@ -110,10 +160,38 @@ int main()
 		}
 		else if (cmd == "tblm")
 		{
-			std::string kind; ull n, capIgnored; is >> kind >> n >> capIgnored; std::vector<std::pair<uint64_t, uint64_t>> kh; std::string tok;
-			while (is >> tok) { auto c = tok.find(':'); kh.push_back({ std::stoull(tok.substr(0, c)), std::stoull(tok.substr(c + 1)) }); }
-			if (kind == "o2") runTbl<SlowTraits2, 3>(n, kh); else if (kind == "o8") runTbl<FastTraits8, 7>(n, kh);
-			else if (kind == "o2f") runTbl<SlowTraits2Full, 3>(n, kh); else runTbl<FastTraits8Full, 7>(n, kh);
+			std::string kind; ull n, capIgnored; is >> kind >> n >> capIgnored; std::vector<TblOp> ops; std::string tok;
+			while (is >> tok)
+			{
+				if (tok[0] == '-') ops.push_back({ false, std::stoull(tok.substr(1)), 0 });
+				else { auto c = tok.find(':'); ops.push_back({ true, std::stoull(tok.substr(0, c)), std::stoull(tok.substr(c + 1)) }); }
+			}
+			if (kind == "o2") runTbl<SlowTraits2, 3>(n, ops); else if (kind == "o8") runTbl<FastTraits8, 7>(n, ops);
+			else if (kind == "o2f") runTbl<SlowTraits2Full, 3>(n, ops); else runTbl<FastTraits8Full, 7>(n, ops);
+		}
+		else if (cmd == "bops")
+		{
+			std::string kind; ull m, L; is >> kind >> m >> L; std::vector<BOp> ops; std::string tok;
+			while (is >> tok)
+			{
+				BOp o{ tok[0], 0, 0, 0 }; std::vector<ull> v; size_t pos = 1;
+				while (pos < tok.size()) { size_t e = tok.find(':', pos + 1); if (e == std::string::npos) e = tok.size(); v.push_back(std::stoull(tok.substr(pos + 1, e - pos - 1))); pos = e; }
+				if (v.size() > 0) o.a = v[0]; if (v.size() > 1) o.b = v[1]; if (v.size() > 2) o.c = v[2];
+				ops.push_back(o);
+			}
+			if (kind == "o2") runBopsO2(ops);
+			else if (kind == "n1f") switch (m) {
+			case 1: runBopsN1<N1F<1>, 1>(L, ops); break; case 2: runBopsN1<N1F<2>, 2>(L, ops); break;
+			case 3: runBopsN1<N1F<3>, 3>(L, ops); break; case 4: runBopsN1<N1F<4>, 4>(L, ops); break;
+			case 5: runBopsN1<N1F<5>, 5>(L, ops); break; case 6: runBopsN1<N1F<6>, 6>(L, ops); break;
+			case 7: runBopsN1<O8, 7>(L, ops); break;
+			default: puts("?"); }
+			else switch (m) {
+			case 1: runBopsN1<N1<1>, 1>(L, ops); break; case 2: runBopsN1<N1<2>, 2>(L, ops); break;
+			case 3: runBopsN1<N1<3>, 3>(L, ops); break; case 4: runBopsN1<N1<4>, 4>(L, ops); break;
+			case 5: runBopsN1<N1<5>, 5>(L, ops); break; case 6: runBopsN1<N1<6>, 6>(L, ops); break;
+			case 7: runBopsN1<N1<7>, 7>(L, ops); break;
+			default: puts("?"); }
 		}
 		else if (cmd == "sweep")
 		{	// property predicate on the real encoders for every probe in [lo, hi): a fresh bucket and an accumulating bucket
